@@ -146,7 +146,9 @@ class Program:
         for p, b in self.bodies.items():
             if b.get("impl_trait") and b.get("impl_self"):
                 head = b["impl_self"].split("<")[0].lstrip("&").strip()
-                trait_impls[head].add(p)
+                if head in self.adts:  # impls on foreign types (Vec<..>, Node<..>) are reached through From/Into only
+                    trait_impls[head].add(p)
+        from_impls = [p for p, b in self.bodies.items() if b.get("assoc_name") == "from" and (b.get("impl_trait") or "").startswith("core::convert::From<")]
         ws = set(self.crates)
         path_re = re.compile(r"[A-Za-z_][A-Za-z0-9_]*(?:::[A-Za-z_][A-Za-z0-9_]*)+")
         for p, b in self.bodies.items():
@@ -158,6 +160,21 @@ class Program:
                 tgt = c.get("resolved") or c.get("path")
                 if tgt in self.bodies:
                     continue
+                decl = c.get("path") or ""
+                gens = c.get("generics") or []
+                if decl in ("core::convert::Into::into", "core::convert::From::from") and len(gens) == 2:
+                    # precise: Into<U> for T  ==>  <U as From<T>>::from
+                    norm = lambda x: re.sub(r"'[a-z_]+ ?", "", x).replace(" ", "")
+                    t_, u_ = (gens[0], gens[1]) if decl.endswith("into") else (gens[1], gens[0])
+                    hit = False
+                    for q in from_impls:
+                        bq = self.bodies[q]
+                        if norm(bq.get("impl_self") or "").split("<")[0] == norm(u_).split("<")[0] and \
+                                norm(bq.get("impl_trait") or "") == norm("core::convert::From<%s>" % t_):
+                            E[p].add(q)
+                            hit = True
+                    if hit:
+                        continue
                 fmt_like = re.search(r"fmt|to_string|format|unwrap|expect|panic|assert|print|write|Debug|Display", tgt or "") is not None
                 for g in (c.get("generics") or []) + [c.get("impl_self") or ""]:
                     for ty in path_re.findall(g):
